@@ -60,6 +60,7 @@ struct pfx_rec {
     uint64_t useq;          /* x.seq attribute of the uref (UINT64_MAX if absent) */
     size_t size;            /* payload size (block) */
     uint64_t phash;         /* hash of payload */
+    uint64_t sig;           /* hash of payload + dates + flags + attributes */
     struct uref *uref;      /* INPUT: the uref if kept; FLOWDEF: a dup of the definition */
     struct urequest *request;
     int reqtype;
@@ -132,6 +133,7 @@ uint8_t pfx_pattern(uint64_t useq, size_t i);
 struct uref *pfx_uref_block(struct pfx *pfx, uint64_t useq, size_t size, int nseg);
 uint64_t pfx_uref_seq(struct uref *uref);
 uint64_t pfx_payload_hash(struct uref *uref, size_t *size_p);
+uint64_t pfx_uref_sig(struct uref *uref);
 struct uref *pfx_flow_def_block(struct pfx *pfx, const char *def);
 
 /* event-loop helpers */
